@@ -4,6 +4,7 @@ pub mod dfs;
 pub mod panics;
 pub mod par;
 pub mod report;
+pub mod threads;
 
 pub use chooser::{choose, choose_free};
 
